@@ -22,7 +22,7 @@ RULE = ('case = (device parameter table over all 10 firmware types, protocol gen
 ASSUMPTIONS = ['simulated device implements the firmware param protocol (read/write/misc) as documented',
                'a default-value reply whose first value byte equals ENOENT is ambiguous in the protocol; None or the value '
                'are both accepted for it', 'each (misc command, parameter) pair is outstanding at most once']
-REQUIRED = ['mon.values_read_back_inside_an_update_callback', 'mon.writes_checked', 'mon.refused_checked', 'mon.value_replies', 'mon.callback_invocations',
+REQUIRED = ['mon.persistent_requests_accepted', 'mon.extended_type_answers_arriving_twice_during_set_up', 'mon.values_read_back_inside_an_update_callback', 'mon.writes_checked', 'mon.refused_checked', 'mon.value_replies', 'mon.callback_invocations',
             'mon.misc_replies', 'mon.one_outstanding_pairs', 'mon.precedence_pairs', 'mon.notifications',
             'mon.multi_outstanding_misc_cases', 'mon.v1_cases', 'mon.state_queries_answered_enoent',
             'mon.instant_reply_cases_with_statement_level_preemption', 'mon.additional_listeners_checked',
@@ -140,6 +140,19 @@ def run(desc, ctx):
     drnd = random.Random(desc['seed'] ^ 0x77)
     if desc['maxdelay'] > 0:
         spec.reply_policy = lambda sp, n, h, d: [(drnd.uniform(0, desc['maxdelay']) if (h >> 4) == 2 else 0.0, h, d)]
+    connecting = {'on': True, 'dups': 0}
+    if v2 and desc['seed'] % 4 == 1:
+        # while the library asks, one parameter at a time, which of the parameters are persistent, some answers arrive twice
+        # (the acknowledgement of the first copy was lost on the air)
+        base_pol = spec.reply_policy
+
+        def dup_ext(sp, n, h, d):
+            outs = base_pol(sp, n, h, d) if base_pol is not None else [(0.0, h, d)]
+            if connecting['on'] and (h >> 4) & 0xF == 2 and h & 3 == 3 and d and d[0] == 2 and drnd.random() < 0.5:
+                outs = outs + [(outs[0][0] + drnd.choice((0.0, 0.0004)), h, d)]
+                connecting['dups'] += 1
+            return outs
+        spec.reply_policy = dup_ext
     programs = [gen_ops(random.Random(desc['seed'] * 31 + t), dev, desc['ops'], v2, desc['misc_burst'] and t == 0)
                 for t in range(desc['threads'])]
     # a (cmd, param) pair must be outstanding at most once over all threads
@@ -166,6 +179,7 @@ def run(desc, ctx):
         if not done.wait(600.0) or cf.param.is_updated is not True:
             ob['problems'].append('never fully connected')
             return
+        connecting['on'] = False
         s.sleep(0.2)
         ob['t0_rx'], ob['t0_tx'] = len(spec.rx), len(spec.tx)
         def on_any(n, v):
@@ -344,7 +358,12 @@ def run(desc, ctx):
     for c in ob['calls']:
         op = c['op']
         if c['exc'] is not None:
+            if op[0] in ('store', 'clear', 'state') and by_index[op[2]].get('ext') and by_index[op[2]].get('pers'):
+                # the device says this parameter is persistent and the connection is fully set up
+                V('param:persistent-request-on-a-persistent-parameter-refused', {'call': c})
             continue
+        if op[0] in ('store', 'clear', 'state') and by_index[op[2]].get('ext') and by_index[op[2]].get('pers'):
+            ctx.count('mon.persistent_requests_accepted')
         if op[0] == 'set':
             e = [x for x in exp_writes if x[0] == c['uid']]
             if e:
@@ -436,6 +455,7 @@ def run(desc, ctx):
                 return
     check_stream('all-params', ob['all'], exp_updates)
     ctx.count('mon.values_read_back_inside_an_update_callback', ob.get('readback', 0))
+    ctx.count('mon.extended_type_answers_arriving_twice_during_set_up', connecting['dups'])
     if ob.get('stale_readback'):
         ctx.violate('param:get_value-inside-the-update-callback-differs-from-the-notified-value',
                     {'name_notified_read_back': ob['stale_readback']}, replay=rp)
